@@ -208,6 +208,41 @@ func init() {
 			x.DefOptBool("httpBackupAbortsStartedResponse", false, false)
 		}
 
+		// ---- store/store.go (*Store).Backup: which errors of the pre-backup snapshot are tolerated
+		x.Comment("store/store.go (*Store).Backup: condition under which a failed pre-backup Snapshot(0) makes Backup fail")
+		cond := ""
+		if fd := x.Func("store", "Store", "Backup"); fd != nil {
+			ast.Inspect(fd.Body, func(nd ast.Node) bool {
+				is, ok := nd.(*ast.IfStmt)
+				if !ok {
+					return true
+				}
+				// pre-order walk: the last match is the innermost enclosing if
+				if strings.Contains(x.Src(is.Body), "pre-backup snapshot failed") {
+					cond = strings.Join(strings.Fields(x.Src(is.Cond)), " ")
+					if is.Init != nil {
+						cond = "INIT " + strings.Join(strings.Fields(x.Src(is.Init)), " ") + " ; " + cond
+					}
+				}
+				return true
+			})
+		}
+		x.DefString("preBackupSnapshotFailsWhen", cond)
+
+		// ---- http/service.go: methods of the response-writer wrapper used by handleBackup. A ReadFrom
+		// or WriterTo method would let io.Copy bypass Write and with it the `started` flag.
+		x.Comment("http/service.go: methods declared on backupResponseWriter (sorted)")
+		var meths []string
+		for _, f := range x.Pkg("http") {
+			for _, d := range f.Decls {
+				if fd, ok := d.(*ast.FuncDecl); ok && fd.Recv != nil && len(fd.Recv.List) == 1 && recvName(fd.Recv.List[0].Type) == "backupResponseWriter" {
+					meths = append(meths, fd.Name.Name)
+				}
+			}
+		}
+		sort.Strings(meths)
+		x.DefStrings("backupResponseWriterMethods", meths)
+
 		// ---- cluster/service.go handleConn: compression forced on the wire
 		x.Comment("cluster/service.go handleConn: br.Compress = true before s.db.Backup(.., br, conn)")
 		if fd := x.Func("cluster", "Service", "handleConn"); fd != nil {
